@@ -730,6 +730,52 @@ def readers_read_only(ctx: Ctx, v: LocalView, rule: str) -> int:
     return n
 
 
+def record_rewritten_unless_current(ctx: Ctx, rule: str) -> int:
+    """DBFS sync_paths: an iteration ends without writing the redirect record of its path only after a comparison showed that the
+    record read from the store already names the key being committed"""
+    rep = ctx.report
+    prog = ctx.prog
+    cls = prog.classes.get("dds.codecs.databricks.DBFSStore")
+    if cls is None or "sync_paths" not in cls.methods:
+        raise AnchorError("dds.codecs.databricks.DBFSStore.sync_paths not found")
+    f = cls.methods["sync_paths"]
+    m = StoreModel(prog, cls, ctx._types)
+    puts = [e for e in m.effects_of("sync_paths") if e.kind == "PUT" and mentions_sym(e.term, "PATH")]
+    cfg = cfg_of(f)
+    n = 0
+    for loop in [x for x in f.own_nodes() if isinstance(x, ast.For)]:
+        if not (isinstance(loop.target, (ast.Tuple, ast.List)) and len(loop.target.elts) == 2 and isinstance(loop.target.elts[1], ast.Name)):
+            continue
+        keyv = loop.target.elts[1].id
+        n += 1
+        put_nodes = []
+        for e in puts:
+            call = getattr(e, "root_node", None) or e.node
+            put_nodes += [g for g in cfg.nodes_of(call)]
+        eq_nodes = []
+        for b in cfg.nodes:
+            if b.kind == "branch" and isinstance(b.ast, ast.Compare) and len(b.ast.ops) == 1 and isinstance(b.ast.ops[0], (ast.Eq, ast.NotEq)):
+                sides = [b.ast.left, b.ast.comparators[0]]
+                if any(isinstance(x, ast.Name) and x.id == keyv for x in sides):
+                    if (isinstance(b.ast.ops[0], ast.Eq) and b.label == "T") or (isinstance(b.ast.ops[0], ast.NotEq) and b.label == "F"):
+                        eq_nodes.append(b)
+        tb = [x for x in cfg.nodes if x.kind == "branch" and x.ast is loop and x.label == "T"]
+        heads = [x for x in cfg.nodes if x.kind == "loop" and x.ast is loop]
+        desc = "an iteration of DBFS sync_paths leaves the redirect record as it is only when the record names the committed key"
+        if not put_nodes or not tb or not heads:
+            rep.unknown(rule, f.qname, "redirect record write of DBFS sync_paths not found", f.loc(loop))
+            continue
+        pth = cfg.find_path(tb, heads + [cfg.exit], avoid=put_nodes + eq_nodes, include_src=False)
+        if pth is None:
+            rep.ok(rule, f.qname, desc, f.loc(loop))
+        else:
+            from .common import witness_path
+            rep.bad(rule, f.qname, desc, f.loc(loop), ["an iteration that keeps a record without comparing it with the key:"] + witness_path(cfg, f, pth)[-10:] + [
+                    "a path committed a second time with another key (re-keep with changed code) keeps resolving to the old key; under the 'full' commit type the data copy stays stale"],
+                    "record-kept", what="DBFS sync_paths keeps an existing redirect record whatever key it names")
+    return n
+
+
 def uri_join_keeps_names(ctx: Ctx, rule: str) -> int:
     """The URI join of the DBFS store removes separator syntax only: a statement `s = s[k:]` is reached only under a test
     that pins what is removed to a separator (`s == LIT`, or `s.startswith(LIT)` with LIT ending in '/'). A bare
